@@ -1,8 +1,223 @@
 import Genshi.Wire
-namespace Driver.C05
-open Genshi
+import Genshi.WireCore
+import Genshi.Model.Path
+import Genshi.Model.PathParse
+import Genshi.Model.PathStrategy
+import Genshi.Model.PathRef
+/-
+  Driver verbs for C05 (and shared encoders for C17):
 
-/-- stub: the model driver for C05 is not built yet -/
-def handle : List Sexp → Option Sexp := fun _ => none
+    C05 parse  <text>                          -> ( ok <locpath>… ) | ( err <kind> )
+    C05 run    <text> <nsmap> <vars> <events>  -> ( ok <item>… ) | ( err <kind> ) | unmodelled
+    C05 runf <strategy> <text> …            -> the same with every location path forced onto one strategy
+    C05 xp     <text> <nsmap> <vars> <events>  -> reference result ( ok <item>… ) | unmodelled
+    C05 pred   <text> <nsmap> <vars> <event>   -> value of the first predicate of the first step on the event
+    C05 num    <text>                          -> XPath number of a string, printed back
+-/
+namespace Driver.C05
+open Genshi Genshi.Path Genshi.Sexp
+
+def axisAtom : Axis → Sexp
+  | .attribute => .atom "ATTRIBUTE"
+  | .child => .atom "CHILD"
+  | .descendant => .atom "DESCENDANT"
+  | .descendantOrSelf => .atom "DESCENDANT-OR-SELF"
+  | .self => .atom "SELF"
+
+def testSexp : NodeTest → Sexp
+  | .principal a => .list [.atom "P", ofBool a]
+  | .qprincipal a p => .list [.atom "QP", ofBool a, .str p]
+  | .localName a n => .list [.atom "L", ofBool a, .str n]
+  | .qname a p n => .list [.atom "Q", ofBool a, .str p, .str n]
+  | .comment => .atom "C"
+  | .node => .atom "N"
+  | .pi none => .list [.atom "PI", .atom "N"]
+  | .pi (some t) => .list [.atom "PI", .str t]
+  | .text => .atom "T"
+
+def numAtom (x : XNum) : Sexp := .str x.toStr
+
+def cmpAtom : CmpOp → Sexp
+  | .eq => .atom "eq" | .ne => .atom "ne" | .gt => .atom "gt"
+  | .ge => .atom "ge" | .lt => .atom "lt" | .le => .atom "le"
+
+def fn0Name : Fn0 → String
+  | .false_ => "false" | .true_ => "true" | .localName => "local-name" | .name => "name"
+  | .namespaceUri => "namespace-uri"
+def fn1Name : Fn1 → String
+  | .boolean => "boolean" | .ceiling => "ceiling" | .floor => "floor" | .normalizeSpace => "normalize-space"
+  | .not => "not" | .number => "number" | .round => "round" | .stringLength => "string-length"
+def fn2Name : Fn2 → String
+  | .contains => "contains" | .startsWith => "starts-with" | .substringAfter => "substring-after"
+  | .substringBefore => "substring-before" | .substring => "substring" | .matches => "matches"
+def fn3Name : Fn3 → String
+  | .translate => "translate" | .substring => "substring" | .matches => "matches"
+
+mutual
+  partial def exprSexp : Expr → Sexp
+    | .test t => .list [.atom "test", testSexp t]
+    | .str s => .list [.atom "lit", .str s]
+    | .num x => .list [.atom "num", numAtom x]
+    | .var n => .list [.atom "var", .str n]
+    | .fn0 f => .list [.atom "fn", .str (fn0Name f).toList]
+    | .fn1 f a => .list [.atom "fn", .str (fn1Name f).toList, exprSexp a]
+    | .fn2 f a b => .list [.atom "fn", .str (fn2Name f).toList, exprSexp a, exprSexp b]
+    | .fn3 f a b c => .list [.atom "fn", .str (fn3Name f).toList, exprSexp a, exprSexp b, exprSexp c]
+    | .concat1 a => .list [.atom "fn", .str "concat".toList, exprSexp a]
+    | .concat a r => .list (.atom "fn" :: .str "concat".toList :: exprSexp a :: concatArgs r)
+    | .and_ a b => .list [.atom "and", exprSexp a, exprSexp b]
+    | .or_ a b => .list [.atom "or", exprSexp a, exprSexp b]
+    | .cmp op a b => .list [.atom "cmp", cmpAtom op, exprSexp a, exprSexp b]
+  /-- the remaining arguments of an n-ary concat -/
+  partial def concatArgs : Expr → List Sexp
+    | .concat1 a => [exprSexp a]
+    | .concat a r => exprSexp a :: concatArgs r
+    | e => [exprSexp e]
+end
+
+def stepSexp (s : Step) : Sexp := .list [axisAtom s.axis, testSexp s.test, .list (s.preds.map exprSexp)]
+def pathSexp (p : LocPath) : Sexp := .list (p.map stepSexp)
+
+def errAtom : PErr → Sexp
+  | .syntax => .atom "PathSyntaxError"
+  | .index => .atom "IndexError"
+  | .type => .atom "TypeError"
+  | .key => .atom "KeyError"
+  | .attribute => .atom "AttributeError"
+  | .fuel => .atom "fuel"
+  | .unmodelled => .atom "unmodelled"
+
+def valSexp : Val → Sexp
+  | .none => .atom "N"
+  | .bool b => .list [.atom "b", ofBool b]
+  | .num x => .list [.atom "n", numAtom x]
+  | .str s => .list [.atom "x", .str s]
+  | .attrs a => .list [.atom "a", attrsToSexp a]
+  | .event e => .list [.atom "e", e.toSexp]
+
+def itemSexp : Item → Sexp
+  | .ev e => .list [.atom "ev", e.toSexp]
+  | .attrs a => .list [.atom "at", attrsToSexp a]
+
+def nsOfSexp? : Sexp → Option NsMap
+  | .list xs => xs.mapM fun
+      | .list [.str p, .str u] => some (p, u)
+      | _ => none
+  | _ => none
+
+def valOfSexp? : Sexp → Option Val
+  | .atom "N" => some .none
+  | .list [.atom "b", b] => b.toBool?.map .bool
+  | .list [.atom "n", .str s] => some (.num (XNum.parse s))
+  | .list [.atom "x", .str s] => some (.str s)
+  | _ => none
+
+def varsOfSexp? : Sexp → Option Vars
+  | .list xs => xs.mapM fun
+      | .list [.str n, v] => do let v ← valOfSexp? v; pure (n, v)
+      | _ => none
+  | _ => none
+
+def toXVars (vs : Vars) : Ref.XVars :=
+  vs.filterMap fun (n, v) =>
+    match v with
+    | .bool b => some (n, .bool b)
+    | .num x => some (n, .num x)
+    | .str s => some (n, .str s)
+    | _ => none
+
+/-- characters the tokenizer model covers: ASCII outside string literals -/
+def textCovered (text : List Char) : Bool :=
+  (tokenize text).all fun t => isQuoted t && t.length > 1 || t.all fun c => c.toNat < 128
+
+/-- numerals with at most 15 significant digits (a double is exact there) -/
+def numeralOk (x : XNum) : Bool :=
+  match x with
+  | .nan => true
+  | .dec _ m _ => m < 1000000000000000
+
+mutual
+  partial def exprOk : Expr → Bool
+    | .num x => numeralOk x
+    | .fn1 _ a | .concat1 a => exprOk a
+    | .fn2 _ a b | .concat a b | .and_ a b | .or_ a b | .cmp _ a b => exprOk a && exprOk b
+    | .fn3 _ a b c => exprOk a && exprOk b && exprOk c
+    | _ => true
+end
+
+def pathsCovered (ps : List LocPath) : Bool :=
+  ps.all fun p => p.all fun s => s.preds.all fun e => e.covered && exprOk e
+
+/-- attribute values that look numeric must be short enough to be exact as doubles -/
+def attrOk (v : List Char) : Bool := numeralOk (XNum.parse v)
+
+def eventsCovered (es : List Event) : Bool :=
+  es.all fun e => match e with
+    | .start t a => a.all (fun p => attrOk p.2) && !(t.ns == noneStr)
+    | _ => true
+
+def nsCovered (ns : NsMap) : Bool := ns.all fun p => !p.2.isEmpty
+
+def strategyOf? : Sexp → Option (Option Strategy)
+  | .atom "auto" => some none
+  | .atom "Single" => some (some .single)
+  | .atom "Simple" => some (some .simple)
+  | .atom "Generic" => some (some .generic)
+  | _ => none
+
+def runSelect (force : Option Strategy) (text : List Char) (ns : NsMap) (vs : Vars) (es : List Event) : Sexp :=
+  if !textCovered text || !nsCovered ns || !eventsCovered es then .atom "unmodelled" else
+  match parse text with
+  | .error .fuel | .error .unmodelled => .atom "unmodelled"
+  | .error k => .list [.atom "err", errAtom k]
+  | .ok ps =>
+    if !pathsCovered ps then .atom "unmodelled"
+    else if (match force with
+             | some s => !(ps.all fun p => s.supports p)
+             | none => false) then .atom "unsupported"
+    else .list (.atom "ok" :: (select ps ns vs es force).map itemSexp)
+
+def runXp (text : List Char) (ns : NsMap) (vs : Vars) (es : List Event) : Sexp :=
+  if !textCovered text || !nsCovered ns || !eventsCovered es then .atom "unmodelled" else
+  match parse text with
+  | .error _ => .atom "unmodelled"
+  | .ok ps =>
+    if !pathsCovered ps then .atom "unmodelled" else
+    match Ref.buildForest es with
+    | some [root] =>
+        let a := Ref.xpSelect ps ns (toXVars vs) root
+        if a == Ref.xpSelectSets ps ns (toXVars vs) root then .list (.atom "ok" :: a.map itemSexp)
+        else .atom "reference-formulations-differ"
+    | _ => .atom "unmodelled"
+
+def handle : List Sexp → Option Sexp
+  | [.atom "parse", .str text] =>
+      if !textCovered text then some (.atom "unmodelled") else
+      match parse text with
+      | .error .fuel | .error .unmodelled => some (.atom "unmodelled")
+      | .error k => some (.list [.atom "err", errAtom k])
+      | .ok ps => some (.list (.atom "ok" :: ps.map pathSexp))
+  | [.atom "tokens", .str text] => some (.list ((tokenize text).map .str))
+  | [.atom "run", .str text, ns, vs, es] => do
+      let ns ← nsOfSexp? ns; let vs ← varsOfSexp? vs; let es ← streamOfSexp? es
+      pure (runSelect none text ns vs es)
+  | [.atom "runf", s, .str text, ns, vs, es] => do
+      let s ← strategyOf? s
+      let ns ← nsOfSexp? ns; let vs ← varsOfSexp? vs; let es ← streamOfSexp? es
+      pure (runSelect s text ns vs es)
+  | [.atom "xp", .str text, ns, vs, es] => do
+      let ns ← nsOfSexp? ns; let vs ← varsOfSexp? vs; let es ← streamOfSexp? es
+      pure (runXp text ns vs es)
+  | [.atom "pred", .str text, ns, vs, e] => do
+      let ns ← nsOfSexp? ns; let vs ← varsOfSexp? vs; let e ← Event.ofSexp? e
+      if !textCovered text || !nsCovered ns || !eventsCovered [e] then pure (.atom "unmodelled") else
+      match parse text with
+      | .ok ((st :: _) :: _) =>
+          match st.preds with
+          | p :: _ => if p.covered && exprOk p then pure (valSexp (p.eval e ns vs)) else pure (.atom "unmodelled")
+          | [] => pure (.atom "unmodelled")
+      | _ => pure (.atom "unmodelled")
+  | [.atom "num", .str s] => some (numAtom (XNum.parse s))
+  | _ => none
 
 end Driver.C05
